@@ -224,3 +224,21 @@ Proof.
   - apply cmc_vacuum_zero_lemma; assumption.
 Qed.
 Print Assumptions vacuum_part_is_zero.
+
+(* --- chords shorter than the step: there is at least one cell (steps_are_ceiling), so the error is
+       also bounded by the CHORD length times the oscillations; in particular a chord inside the Earth
+       never yields 0 merely because it is short ----------------------------------------------------- *)
+Theorem slant_depth_discretisation_error_short_chord : forall p dir step ms Ms,
+  0 < step ->
+  let e := shift PREM_earth_radius p in let d := vnormalize dir in
+  let L := exit_distance PREM_earth_radius e d in
+  0 < disc PREM_earth_radius e d -> 0 < L ->
+  cells_bounded (along_density PREM_density e d L) (linspace01 (n_cells L step + 1)) ms Ms ->
+  ex_RInt (along_density PREM_density e d L) 0 1 ->
+  Rabs (PREM_slant_depth p dir step - 100 * L * RInt (along_density PREM_density e d L) 0 1)
+    <= 100 * L * (sumR Ms - sumR ms).
+Proof.
+  intros p dir step ms Ms Hs. rewrite prem_slant_structure.
+  apply slant_discretisation_error_chord_lemma. assumption.
+Qed.
+Print Assumptions slant_depth_discretisation_error_short_chord.
